@@ -463,9 +463,11 @@ func (c *client) executeReadLoop(cborReader *cbor.Decoder) {
 	// critical section as that decision (see hasEntriesRemaining, sendErrorToAllAndStopReading).
 	defer c.wg.Done()
 	// Loop and get all messages
-	// The message is generic, so we must find the type and decode the full message next.
-	var runtimeMessage DecodedRuntimeMessage
 	for {
+		// The message is generic, so we must find the type and decode the full message next.
+		// A fresh struct per message: the decoder leaves fields that are absent from the message
+		// untouched, so a reused struct would carry the previous message's run ID or data over.
+		var runtimeMessage DecodedRuntimeMessage
 		if err := cborReader.Decode(&runtimeMessage); err != nil {
 			c.logger.Errorf(
 				"ATP client for steps '%s' failed to read or decode runtime message: %v",
